@@ -470,7 +470,8 @@ func match(pattern ast.Atom, subst *unionfind.UnionFind) (bool, *unionfind.Union
 		if !ok || name.Type != ast.NameType {
 			return false, nil, nil
 		}
-		return strings.HasPrefix(name.Symbol, pat.Symbol) && len(name.Symbol) > len(pat.Symbol), subst, nil
+		// A name has the prefix /a when it continues with a further part: /a/b, but not /ab.
+		return strings.HasPrefix(name.Symbol, pat.Symbol+"/"), subst, nil
 
 	case symbols.StartsWith.Symbol:
 		if len(pattern.Args) != 2 {
